@@ -135,20 +135,34 @@ NewViol == LET e == Ev IN
 Step ==
   LET e == Ev IN
   CASE e.ev = "reset" -> /\ info' = (IF Has(e, "info") THEN e.info ELSE NoRec) /\ exp' = NoRec /\ reqs' = <<>> /\ seqN' = 0 /\ ivs' = {}
-                         /\ incall' = FALSE /\ fired' = {} /\ prevM' = NoM /\ mcall' = NoCall
+                         /\ incall' = FALSE /\ fired' = {} /\ mcall' = NoCall
+                         \* (the registry snapshots taken at the start of the script and after the dial precede the reset)
+                         /\ UNCHANGED prevM
     [] e.ev = "call" -> /\ exp' = (IF Has(e, "exp") THEN e.exp ELSE NoRec) /\ reqs' = <<>> /\ incall' = TRUE /\ fired' = {}
-                        /\ mcall' = [kind |-> (IF e.api \in {"Cmd", "Raw"} THEN "command" ELSE "none"), name |-> "", err |-> FALSE, ntx |-> 0, codes |-> <<>>]
+                        /\ mcall' = [kind |-> (IF e.api \in {"Cmd", "Raw"} THEN "command"
+                                               ELSE IF e.api = "NewV2Session" /\ ~InSess THEN "opendisc"
+                                               ELSE IF e.api = "RetrieveSupportedCipherSuites" /\ ~InSess THEN "disc" ELSE "none"),
+                                      name |-> "", err |-> FALSE, ntx |-> 0, codes |-> <<>>]
                         /\ UNCHANGED <<info, seqN, ivs, prevM>>
     [] e.ev = "tx" -> /\ reqs' = (IF Has(info, "notx") /\ info.notx THEN reqs ELSE Append(reqs, Abstract(e)))
                       /\ seqN' = (IF InSess THEN seqN + 1 ELSE seqN)
                       /\ ivs' = (IF InSess /\ Len(e.raw) >= 32 THEN ivs \cup {Sub(e.raw, 16, 32)} ELSE ivs)
                       /\ fired' = (IF Has(e, "rule") THEN fired \cup {e.rule} ELSE fired)
-                      /\ mcall' = [mcall EXCEPT !.ntx = @ + 1]
+                      \* for a session open only the commands of the cipher suite enumeration count as commands
+                      /\ mcall' = (IF mcall.kind \in {"opendisc", "disc"} /\ Abstract(e).pt # 0 THEN mcall ELSE [mcall EXCEPT !.ntx = @ + 1])
                       /\ UNCHANGED <<info, exp, incall, prevM>>
-    [] e.ev = "rx" -> /\ mcall' = (IF incall /\ Has(e, "attrs") /\ Has(e.attrs, "valid") /\ e.attrs.valid THEN [mcall EXCEPT !.codes = Append(@, e.attrs.code)] ELSE mcall)
+    [] e.ev = "rx" -> /\ mcall' = (IF incall /\ Has(e, "attrs") /\ Has(e.attrs, "valid") /\ e.attrs.valid THEN [mcall EXCEPT !.codes = Append(@, e.attrs.code)]
+                                   ELSE IF incall /\ mcall.kind \in {"opendisc", "disc"} /\ Has(e, "attrs") /\ Has(e.attrs, "kind")
+                                        THEN (IF e.attrs.kind = "chunk" THEN [mcall EXCEPT !.codes = Append(@, 0)]
+                                              \* refusals of a chunk request and everything but well-formed chunks: not covered by this law
+                                              ELSE IF e.attrs.kind \in {"osr-refused"} THEN mcall ELSE [mcall EXCEPT !.kind = "none"])
+                                   ELSE mcall)
                       /\ UNCHANGED <<info, exp, reqs, seqN, ivs, incall, fired, prevM>>
     [] e.ev = "ret" -> /\ incall' = FALSE
-                       /\ mcall' = (IF Has(e, "err") /\ Has(e, "cmdName") THEN [mcall EXCEPT !.err = e.err, !.name = e.cmdName] ELSE [mcall EXCEPT !.kind = "none"])
+                       /\ mcall' = (IF Has(e, "err") /\ Has(e, "cmdName") THEN [mcall EXCEPT !.err = e.err, !.name = e.cmdName]
+                                    ELSE IF Has(e, "err") /\ mcall.kind \in {"opendisc", "disc"} /\ ~Has(e, "panic") /\ ~Has(e, "hang")
+                                         THEN [mcall EXCEPT !.err = e.err, !.name = "Get Channel Cipher Suites"]
+                                    ELSE [mcall EXCEPT !.kind = "none"])
                        /\ UNCHANGED <<info, exp, reqs, seqN, ivs, fired, prevM>>
     [] e.ev = "metrics" -> /\ prevM' = e.m /\ mcall' = NoCall /\ UNCHANGED <<info, exp, reqs, seqN, ivs, incall, fired>>
     [] OTHER -> UNCHANGED <<info, exp, reqs, seqN, ivs, incall, fired, prevM, mcall>>
